@@ -182,7 +182,7 @@ func rulePreAuthRaceFree(c *Ctx, a *tcpAnchors) {
 // C06.DRAIN: address-read failure and relay copy error drain before closing.
 func ruleDrain(c *Ctx, a *tcpAnchors) {
 	p := c.P
-	h := a.handler
+	_ = a.handler
 	isConn := func(v ssa.Value) bool { return a.sameConn(c, v) }
 	drain := drainQ(c, isConn)
 	isCloseLike := func(ins ssa.Instruction) bool {
@@ -246,7 +246,7 @@ func ruleDrain(c *Ctx, a *tcpAnchors) {
 			}
 		}
 	}
-	visit(h, 0)
+	visit(a.top, 0)
 	c.Floor("DRAIN", "address-read calls in the handler", n, 1)
 	// (3) client->target copy error: the copy whose source is the authenticated client connection (result 1 of the authenticator),
 	// wherever it lives; its failure edge must drain that source before any direction is closed
@@ -328,13 +328,16 @@ func ruleDeadline(c *Ctx, a *tcpAnchors) {
 	for _, f := range a.auths {
 		isAuth[f] = true
 	}
-	reg := c.NewRegion(h, 3, func(f *ssa.Function) bool { return eng.PkgPathOf(f) != eng.Mod+"/service" || isAuth[f] })
+	reg := c.NewRegion(a.top, 4, func(f *ssa.Function) bool { return eng.PkgPathOf(f) != eng.Mod+"/service" || isAuth[f] })
 	gAuth := c.CallGuard(func(call *ssa.Call) (int, bool) { return 2, call == a.authCall })
 	// isPre: the instruction runs before the authentication result is known (in the handler's pre-auth blocks, or in a helper
 	// all of whose call chains start there)
 	var isPre func(ins ssa.Instruction, d int) bool
 	isPre = func(ins ssa.Instruction, d int) bool {
 		f := ins.Parent()
+		if inChain, isP := a.isPreChain(ins); inChain {
+			return isP
+		}
 		if f == h {
 			return pre[ins.Block()]
 		}
